@@ -704,4 +704,16 @@ example : enumDefaultValues
     [⟨"x-1".toList, "x-1".toList⟩, ⟨"x1".toList, "x1_1".toList⟩] "x1 x-1".toList =
     some [some "x1".toList, some "x-1".toList] := by decide
 
+/-- **`SanitizeAttributesDefaultValue` keeps the default of every single attribute**, tokens or not:
+the default is reset only for `xsi:type`, for a field with several occurrences and for an optional
+ELEMENT — never because the value is a list of tokens (`is_list`, not `is_factory`). -/
+theorem sanitize_attribute_keeps_default (a : GAttr) (ha : a.isAttribute = true) (hl : a.max ≤ 1)
+    (hx : a.xsiType = false) : (sanitize a).default = a.default ∧ (sanitize a).fixed = a.fixed := by
+  have hnl : a.isList = false := by simp [GAttr.isList]; omega
+  simp [sanitize, shouldResetRequired, shouldResetDefault, ha, hx, hnl]
+
+/-- an optional tokens attribute with the default `a b` (`GAttr.mk isAttribute min max default fixed anyObj xsiType tokens`) -/
+example : (sanitize (GAttr.mk true 0 1 (some "a b".toList) false false false true)).default = some "a b".toList := by
+  decide
+
 end Props.C02
